@@ -5,7 +5,9 @@ ID = "C20"
 _F = [("pkg/telemetry/zz_verif_c20_test.go", "harness/C20/zz_verif_c20_test.go")]
 HARNESSES = [dict(name="telemetry", pkg="./pkg/telemetry/", test="TestVerifC20", files=_F, timeout=900),
              dict(name="telemetry_race", pkg="./pkg/telemetry/", test="TestVerifC20", files=_F, timeout=900, race=True)]
-VARIANTS = ["repaired", "defective"]
+# all recorded findings are fixed in /repo: only the repaired machine is an admissible explanation of an observation
+# (the driver still knows the "defective" variant for replays: build/bin/C20_run <cases> <impl> defective)
+VARIANTS = ["repaired"]
 MODEL_NEEDS_IMPL = True
 
 RULE = ("seq: random single-client histories (5-40 ops) over counter/gauge/histogram metrics with cap in "
@@ -366,32 +368,8 @@ def classify(case, impl, model):
 
 
 def signature(case, impl, models):
-    """Mechanism of the recorded concurrency defects, derived from what the repaired model rejects."""
-    if not case.startswith(("conc", "rconc", "reg", "rreg")):
-        return None                           # churn cases: never a recorded finding
-    bad = rejected(models["repaired"])
-    if not bad:
-        return None
-    cap = cap_of(case)
-    mech = set()
-    for o in bad:
-        m = obs_monitor(cap, o)
-        if not m or "alias" in m or "regsplit" in m or "regerror" in m:
-            return None                       # not one of the recorded mechanisms
-        if "regpanic" in m:
-            kinds = set(x.split("@")[1] for x in case.split()[5:]) if case.startswith(("reg", "rreg")) else set()
-            if len(kinds) < 2:
-                return None
-            mech.add("register-loaded-branch-type-assertion-panic")
-        if "orphan" in m or "lost" in m:
-            if "r:" not in case:
-                return None
-            mech.add("cap-rollback-orphans-published-handle")
-        if "drift" in m or "overcap" in m:
-            if "u:" not in case:
-                return None
-            mech.add("unregister-unconditional-decrement")
-    return "+".join(sorted(mech))
+    """No open finding: nothing is suppressed (KNOWN_FINDINGS.txt has only `fixed:` lines for C20)."""
+    return None
 
 
 def shrink(case):
@@ -444,7 +422,8 @@ def describe(case, impl, model):
 def distribution(cases, impl):
     d = {"seq": 0, "conc": 0, "rconc": 0, "reg": 0, "rreg": 0, "reg_results": {}, "kind": {"c": 0, "g": 0, "h": 0}, "cap": {}, "ops": {}, "seq_tombstones": 0,
          "seq_unregister_true": 0, "seq_panics": 0, "seq_collision_cases": 0, "conc_distinct_observations": 0,
-         "conc_cases_with_violating_observation": 0, "conc_violation_classes": {}}
+         "conc_cases_with_violating_observation": 0, "conc_violation_classes": {},
+         "conc_cases_with_several_observations": 0}
     for c, o in zip(cases, impl):
         t = c.split()
         d[t[0]] = d.get(t[0], 0) + 1
@@ -477,6 +456,7 @@ def distribution(cases, impl):
         else:
             obs = conc_obs(o or "")
             d["conc_distinct_observations"] += len(obs)
+            d["conc_cases_with_several_observations"] += len(obs) >= 2      # real overlap happened
             cls = set()
             for x in obs:
                 cls.update(monitor(cap_of(c), x))
